@@ -107,6 +107,131 @@ def _emit(parent, p, depth):
             raise last or _Fail("empty choice")
 
 
+_valid = {}
+
+
+def _valid_values(tname):
+    """Every candidate lexical value that is valid for simple type `tname` (enumeration tokens, facet bounds, stock values)."""
+    if tname not in _valid:
+        m = xsdkit.model()
+        cands = []
+        if tname is not None:
+            cands += m.enumeration(tname) or []
+            f = m.facets(tname)
+            for k in ("minInclusive", "maxInclusive"):
+                if f.get(k) is not None:
+                    cands.append(f[k])
+        big = ["-1", "255", "0.5", "-0.25", "21600000", "5400000", "12700", "914400"]
+        if tname is not None and f.get("base") in ("unsignedInt", "int", "long", "unsignedLong", "integer", "unsignedShort", "short") and f.get("maxInclusive") is None:
+            # a bare count / index (c:ptCount, c:idx, ...): an authoring application writes small numbers here, and python-pptx
+            # legitimately loops over them
+            cands = [c for c in cands if not c.lstrip("-").isdigit() or abs(int(c)) <= 12]
+            big = ["3", "7"]
+        cands += [c for c in _CANDIDATES if not (big == ["3", "7"] and c.isdigit() and int(c) > 12)] + ["true", "false"] + big
+        out = []
+        for c in dict.fromkeys(cands):
+            try:
+                if tname is None or xsdkit.type_valid(tname, c)[0]:
+                    out.append(c)
+            except LookupError:
+                break
+        _valid[tname] = out
+    return _valid[tname]
+
+
+def _fill_rich(el, tname, rnd, p, depth):
+    """Like _fill, but optional attributes and optional / repeatable children are taken with probability p and values are drawn
+    from everything valid for the type (not just the first): an instance as an authoring application might have written it."""
+    m = xsdkit.model()
+    if depth > 5:
+        raise _Fail("depth")
+    if tname is None or not m.is_complex(tname):
+        if tname is not None:
+            vals = _valid_values(tname)
+            if not vals:
+                raise _Fail("no value for " + tname)
+            el.text = rnd.choice(vals)
+        return
+    for name, (typ, use, _default) in m.attributes(tname).items():
+        if name.startswith("{" + R_NS + "}"):
+            if use == "required":
+                raise _Fail("required relationship reference")
+            continue
+        if use == "required" or (use != "prohibited" and rnd.random() < p):
+            vals = _valid_values(typ)
+            if not vals:
+                if use == "required":
+                    raise _Fail("no value for attribute %s" % name)
+                continue
+            el.set(name, rnd.choice(vals))
+    prt = m.particle(tname)
+    if prt is not None:
+        _emit_rich(el, prt, rnd, p * (0.7 if depth else 1.0), depth)
+
+
+def _emit_rich(parent, prt, rnd, p, depth):
+    n = prt.min if prt.min else (1 if rnd.random() < p else 0)
+    if prt.max > n and n and rnd.random() < p * 0.3:
+        n += 1
+    if n == 0:
+        return
+    if prt.kind == "any":
+        if prt.min:
+            raise _Fail("required wildcard")
+        return
+    for _ in range(n):
+        if prt.kind == "elem":
+            child = etree.SubElement(parent, prt.name)
+            try:
+                _fill_rich(child, prt.type, rnd, p, depth + 1)
+            except _Fail:
+                parent.remove(child)
+                if prt.min:
+                    raise
+        elif prt.kind == "seq":
+            for c in prt.children:
+                _emit_rich(parent, c, rnd, p, depth)
+        else:
+            alts = list(prt.children)
+            rnd.shuffle(alts)
+            last = None
+            for alt in alts:
+                mark = len(parent)
+                try:
+                    before = len(parent)
+                    _emit_rich(parent, alt if alt.min else _forced(alt), rnd, p, depth)
+                    if len(parent) > before or not prt.min:
+                        break
+                except _Fail as e:
+                    last = e
+                    del parent[mark:]
+            else:
+                if prt.min:
+                    raise last or _Fail("empty choice")
+
+
+class _forced:
+    """A particle taken at least once (the chosen alternative of a choice)."""
+
+    def __init__(self, prt):
+        self.__dict__.update(kind=prt.kind, min=max(1, prt.min), max=prt.max, children=prt.children, name=prt.name, type=prt.type)
+
+
+def donor_rich(tag, tname, rnd, p=0.45):
+    """A randomly filled-in valid <tag> of type `tname` (serialized), or None when what was drawn does not validate."""
+    try:
+        nsmap = {pf: u for pf, u in xsdkit.NS.items() if pf in ("a", "p", "c", "r")}
+        el = etree.Element(tag, nsmap=nsmap)
+        _fill_rich(el, tname, rnd, p, 0)
+        if tname is None or not xsdkit.model().is_complex(tname) or not xsdkit.fragment_errors(el, tname):
+            STATS["rich_donors_built"] = STATS.get("rich_donors_built", 0) + 1
+            return etree.tostring(el)
+    except (_Fail, LookupError, KeyError, RecursionError):
+        pass
+    STATS["rich_donors_rejected"] = STATS.get("rich_donors_rejected", 0) + 1
+    return None
+
+
 def donor(tag, tname):
     """Serialized minimal valid <tag> of type `tname`, or None."""
     k = (tag, tname)
@@ -156,7 +281,7 @@ def parent_type(el):
     return t if monitors.order_ok(t, tags) else None
 
 
-def saturate(el, rnd, parser_el=None, p_add=0.6, p_swap=0.25, skip=()):
+def saturate(el, rnd, parser_el=None, p_add=0.6, p_swap=0.25, skip=(), rich=0.0):
     """Add to `el` children its type permits and it lacks (donors placed at the first position the order schema accepts);
     where a lacking child cannot coexist (choice group) it may REPLACE the present member.  -> list of ('add'|'swap', tag)."""
     from . import monitors
@@ -173,7 +298,9 @@ def saturate(el, rnd, parser_el=None, p_add=0.6, p_swap=0.25, skip=()):
     for e in decls:
         if e.name in skip or rnd.random() > p_add or el.find(e.name) is not None:
             continue
-        blob = donor(e.name, e.type)
+        blob = donor_rich(e.name, e.type, rnd) if rich and rnd.random() < rich else None
+        if blob is None:
+            blob = donor(e.name, e.type)
         if blob is None:
             continue
         tags = [c.tag for c in el if isinstance(c.tag, str)]
